@@ -12,6 +12,10 @@ class InvalidBranch(Exception):
     pass
 
 
+class BranchExplosion(Exception):
+    """The run has more random branches than the enumeration budget: a limit of the harness, never a finding."""
+
+
 class SymbolicP:
     """Stands for the uniform draw p in `apply_channel`'s loop `p -= weight; if p < 0: break`.
     In probe mode (target None) it never goes negative, so the loop visits every Kraus operator and the
@@ -96,7 +100,7 @@ def enumerate_runs(fn, max_branches=4096, eps=1e-12):
         script = stack.pop()
         runs += 1
         if runs > 40 * max_branches:
-            raise RuntimeError('branch explosion')
+            raise BranchExplosion('branch explosion')
         seed = ScriptedSeed(script)
         try:
             res = fn(seed)
@@ -111,5 +115,5 @@ def enumerate_runs(fn, max_branches=4096, eps=1e-12):
             raise RuntimeError('script longer than the run')
         results.append((seed.prob, res, script))
         if len(results) > max_branches:
-            raise RuntimeError('too many branches')
+            raise BranchExplosion('too many branches')
     return results
